@@ -19,7 +19,7 @@ import (
 func GenC12(verifSeed uint64, run int) *Scenario {
 	seed := Mix(verifSeed, 12, uint64(run))
 	g := NewRng(seed)
-	w := GenWorld(g, GenOpts{FixMTime: true, Small: true, SharedBias: true, PartialInvalidP: 0.2})
+	w, cfgTree := GenWorldCfg(g, GenOpts{FixMTime: true, Small: true, SharedBias: true, PartialInvalidP: 0.2})
 	// (one P more often: per-P caches such as sync.Pool hand an object from one
 	// client to the next only on the same P)
 	plan := &C12Plan{NConfigs: 1, GoMaxProcs: Pick(g, []int{1, 1, 2, 4, 16})}
@@ -81,6 +81,14 @@ func GenC12(verifSeed uint64, run int) *Scenario {
 	plan.SwitchP = Pick(g, []float64{0, 0.05, 0.2, 0.5, 1})
 	plan.Guided = g.Bool(0.6)
 	plan.SchedSeed = g.Uint64()
+	if plan.NConfigs > 1 {
+		alt := cloneTree(cfgTree).(map[string]any)
+		alt["name"] = fmt.Sprint(alt["name"]) + "-alt"
+		alt["description"] = "independently built settings\nwith a description of their own"
+		l, _ := alt["contents"].([]any)
+		alt["contents"] = append(l, map[string]any{"src": "@SRC@src/dup/b/index.html", "dst": "/usr/share/alt/index.html"})
+		plan.AltConfig = RenderConfig(alt)
+	}
 	plan.RefAfter = g.Bool(0.5)
 	plan.InstrSwitchP = Pick(g, []float64{0.002, 0.01, 0.05, 0.2})
 	plan.InstrWanted = g.Bool(0.6)
@@ -159,6 +167,10 @@ func (c *c12client) body(yield func(code int)) {
 	c.res = PackageInfo(info, o)
 }
 
+func refKey(c Client) string {
+	return fmt.Sprintf("%d/%s/%s", c.Config, c.Format, c12Sign(c))
+}
+
 func c12Sign(c Client) string {
 	if c.Signer {
 		return "callback"
@@ -207,9 +219,13 @@ func RunC12(rt *Runtime, sc *Scenario) RunResult {
 			if c.Kind != "package" {
 				continue
 			}
-			k := c.Format + "/" + c12Sign(c)
+			k := refKey(c)
 			if _, ok := refs[k]; ok {
 				continue
+			}
+			cfgText := ""
+			if c.Config == 1 {
+				cfgText = plan.AltConfig
 			}
 			if !c.Signer && contains(w.Signed, c.Format) && c.Format != "apk" {
 				// key-file signed: salted signatures, no byte oracle; not
@@ -218,7 +234,7 @@ func RunC12(rt *Runtime, sc *Scenario) RunResult {
 				refs[k] = nil
 				continue
 			}
-			ref, ok, err := rt.Reference(w, c.Format, c12Sign(c), "", gmp)
+			ref, ok, err := rt.Reference(w, c.Format, c12Sign(c), cfgText, gmp)
 			res.Counters["builds"] += int64(ref.Builds)
 			res.Notes = append(res.Notes, ref.Notes...)
 			if err != nil {
@@ -257,7 +273,11 @@ func RunC12(rt *Runtime, sc *Scenario) RunResult {
 	// the parsed configurations (shared by their clients)
 	cfgs := make([]*nfpm.Config, plan.NConfigs)
 	for i := range cfgs {
-		cfg, err := rt.ParseConfig(w.Config)
+		text := w.Config
+		if i == 1 && plan.AltConfig != "" {
+			text = plan.AltConfig
+		}
+		cfg, err := rt.ParseConfig(text)
 		if err != nil {
 			res.Trouble = "parse: " + err.Error()
 			return res
@@ -346,7 +366,7 @@ func RunC12(rt *Runtime, sc *Scenario) RunResult {
 			sum := sha256.Sum256(c.res.Bytes)
 			elog.Add("client %d package %s failed=%v bytes=%d sha=%x name=%s", c.plan.ID, c.plan.Format, c.res.Err != nil, len(c.res.Bytes), sum[:8], c.name)
 		}
-		ref := refs[c.plan.Format+"/"+c12Sign(c.plan)]
+		ref := refs[refKey(c.plan)]
 		if ref == nil {
 			continue
 		}
